@@ -107,7 +107,7 @@ def gen_cases(ctx):
         vi = rng.randrange(len(V))
         v = V[vi]
         chs = option_changes(v)
-        ops = []
+        ops = [rng.choice([('train',), ('train',), ('eval',)])]      # a run starts with an explicit mode call
         for _ in range(rng.randint(1, 8)):
             r = rng.random()
             if r < 0.35:
@@ -136,7 +136,7 @@ def cfg_literal(case, res):
                   l_bnorm=l['bn'], l_gnorm=l['gn']) for l in f['layers']]
     samplers = [rec(s_names=q['names'], s_reach=q['reach'], s_alpha=q['alpha'], s_prec=q['prec'], s_temp=Fraction(1),
                     s_theta=[Raw('CInit') for _ in q['alpha']]) for q in f['samplers']]
-    pers = rec(p_net=[(n, d) for n, d in zip(f['plain'], f['digests'])], p_masks=masks, p_layers=layers, p_samplers=samplers)
+    pers = rec(p_bn=bool(f['bn']), p_net=[(n, d) for n, d in zip(f['plain'], f['digests'])], p_masks=masks, p_layers=layers, p_samplers=samplers)
     smp = 'NoSamp' if (m == 'MPS' and o.get('nosamp')) else 'Gs' if o.get('gumbel') else 'Sm'
     temp = Fraction(f32(o.get('temperature', 1.0))) if m == 'MPS' else Fraction(1)
     return rec(c_meth=Raw(m), c_pers=pers, c_training=f['view']['training'], c_disc=bool(o.get('discrete_cost', False)),
@@ -260,6 +260,11 @@ def run(ctx):
             model_ok = False
             ctx.notes.append('model evaluation failed: ' + str(ex)[-1200:])
     ctx.extra['model_impl_mismatches'] = len(mism)
+    if os.environ.get('C17_DEBUG'):
+        import collections
+        print(collections.Counter((w, c['kind']) for w, c, d in mism))
+        for w, c, d in mism[:int(os.environ['C17_DEBUG'])]:
+            print('MISMATCH', w, c['cfg'], c['ops'], str(d)[:700])
     ctx.extra['coefficient_columns_not_compared(constructor value / gumbel sample)'] = skipped_vals
     ctx.assumptions += ['plain tensors (weights, BatchNorm statistics, clip values, calculator constants) enter the model as digests: their values are irrelevant to the property',
                         'coefficient tensors are modelled by a normal form (shifted logits / first arg-max / Gumbel noise id); soft-max values are compared with tolerance 1e-5',
@@ -337,7 +342,8 @@ def compare(ctx, c, r, mv, mism):
                 if not ok:
                     mism.append(('theta-after-forward', c, {'sampler': si, 'model': (tag, ix, [float(Fraction(*q)) for q in z]), 'impl': col}))
     else:
-        for li, ((oe, ke), (ioe, ike)) in enumerate(zip(effs, af['eff'])):
+        for li, (e3, (ioe, ike)) in enumerate(zip(effs, af['eff'])):
+            oe, ke = (e3[0], e3[1]), e3[2]
             ctx.corr += 1
             if not (close(ioe, Fraction(*oe), 2.0 ** -16) and close(ike, Fraction(*ke), 2.0 ** -16)):
                 mism.append(('pit-effective-sizes', c, {'layer': li, 'model': (float(Fraction(*oe)), float(Fraction(*ke))), 'impl': (ioe, ike)}))
